@@ -32,8 +32,8 @@ RULE = (
     "continuous/discontinuous spaces, ANY_SPACE_n, ANY_DISCONTINUOUS_SPACE_n,"
     " ANY_W2, stencils cross/region/x1d/y1d/xory1d/cross2d with literal or "
     "run-time extents 1-3; built-ins setval_c, setval_x, X_plus_Y, "
-    "inc_X_plus_Y, inc_a_times_X) over 2-5 fields with a fixed actual "
-    "function space each; COMPUTE_ANNEXED_DOFS in {true,false}; history of "
+    "inc_X_plus_Y, inc_a_times_X) over 2-5 fields (some of them field "
+    "vectors of size 2-3) with a fixed actual function space each; COMPUTE_ANNEXED_DOFS in {true,false}; history of "
     "<= 8 attempted / <= 5 accepted steps of redundant computation (depth "
     "1-3 or maximum), colouring, OMP parallel-do, OMP do + parallel region "
     "over 1-3 nodes, asynchronous halo exchange, MoveTrans; mesh halo depth "
@@ -71,7 +71,7 @@ ASSUMPTIONS = [
     "Asynchronous exchanges: reads between start and finish are judged on "
     "the pre-exchange truth; a write or flag update of the field in between "
     "is a violation.",
-    "Not generated: operators, scalars, field vectors, inter-grid kernels, "
+    "Not generated: operators, scalars, inter-grid kernels, "
     "reductions/global sums, integer fields, domain kernels, loop fusion, "
     "extent variables of value 0; a field is passed at most once per call. "
     "The compile-and-run smoke test of the DESIGN section is replaced by a "
@@ -243,8 +243,12 @@ class Build:
         status = self._apply(step)
         if status == "ok":
             self.accepted.append(step)
-        elif not status.startswith("refused:notarget"):
-            # the tree may have been modified before the refusal
+        elif status.startswith("error:") or (
+                step["t"] == "omp_region" and
+                not status.startswith("refused:notarget")):
+            # the tree may have been modified before the failure (a
+            # TransformationError of a single transformation comes from its
+            # validate(), before any change)
             self.rebuild()
         return status
 
@@ -339,7 +343,8 @@ def evaluate(case, stats=None):
                     f"{MAX_MESH_DEPTH}")
         mesh = depths[case.get("mesh", 0) % len(depths)]
         states, exhaustive = H.initial_states(
-            len(spec["fields"]), mesh, STATE_LIMIT, case.get("seed", 0))
+            len(H.state_slots(spec)[0]), mesh, STATE_LIMIT,
+            case.get("seed", 0))
         info = {"accepted": list(build.accepted), "mesh": mesh,
                 "states": len(states), "exhaustive": exhaustive,
                 "statuses": statuses,
@@ -510,6 +515,8 @@ def run(ctx):
             ctx.label("has_stencil")
         if any(c["kind"] == "builtin" for c in spec["calls"]):
             ctx.label("has_builtin")
+        if spec.get("vectors"):
+            ctx.label("has_vector")
         ctx.extra["states_evaluated"] = \
             ctx.extra.get("states_evaluated", 0) + info["states"]
         if (needs_from_earlier(spec) or info["accepted"]) and \
@@ -522,7 +529,7 @@ def run(ctx):
             _, bucket, msg, _ = res
             ctx.fail(bucket, case_dict(case, info, msg), msg)
 
-    ctx.hyp(prop, cases(), max_examples=ctx.scale(560, 20000),
+    ctx.hyp(prop, cases(), max_examples=ctx.scale(560, 16000),
             key=lambda case: case, shrink_budget=30)
 
 
